@@ -22,7 +22,7 @@ from simkit.store import SimStore, StoreSeam
 PID = "C16"
 ACC_BOUND = 5.0e-3  # |V - V_exact| on resolved densities (the test-suite's own level is 1e-2; measured <= 6e-5 in the envelope used)
 SPREAD_BOUND = 1.0e-8  # between RNG draws: max(SPREAD_BOUND, SPREAD_TOL_FACTOR*tol); measured ~1e-15 (s-type), 1e-3*tol (l=1 channel)
-SPREAD_TOL_FACTOR = 0.05
+SPREAD_TOL_FACTOR = 0.5
 LIN_FACTOR = 5.0  # linearity residual <= LIN_FACTOR * tol * scale (measured <= 0.05*tol)
 CORE_BOUND = 1.0e-6  # robust solver on its own fitted core model (measured <= 2.2e-8 over all grid families; a real defect shows >= 1e-3)
 ROBUST_ELEMENTS = (1, 6, 7, 8, 17)
